@@ -132,6 +132,10 @@ def check_twin(case, tr, keep):
 @st.composite
 def hostile_cases(draw, algo, family, tier):
     backends = G.FAMILIES[family]
+    if family == 'direct':
+        # a directory archive used as the cache takes unhashable keys as they are (named by their text): nothing degrades there, and such keys
+        # cannot be observed through a dict snapshot
+        backends = tuple(b for b in backends if b != 'direct_dir_dill')
     backend = draw(st.sampled_from(backends))
     key_req = H.backend_key_req(backend)
     sig = draw(st.sampled_from([{'req': ['x']}, {'req': ['x'], 'opt': [['y', ['i', 1]]]}, {'req': ['x'], 'varargs': True, 'varkw': True}]))
@@ -154,6 +158,11 @@ def hostile_cases(draw, algo, family, tier):
     host = st.one_of(st.sampled_from(hk).map(lambda k: ['H', k]),
                      st.sampled_from([['l', [['i', 1]]], ['d', [[['s', 'a'], ['i', 1]]]], ['S', [['i', 1], ['i', 2]]], ['l', []],
                                       ['t', [['l', [['i', 2]]]]], ['t', [['H', 'badhash']]], ['t', [['H', 'badhashrt']]], ['t', [['i', 1], ['H', 'memview']]]]))
+    if family == 'direct' and keymap is not None and keymap['cls'] == 'keymap':
+        # the archive itself is the cache and receives the RAW key: what is promised is degradation for UNHASHABLE arguments; a hashable argument
+        # the archive's codec cannot write (a generator inside a pickled key) is the archive's business, not the keymap's
+        host = st.sampled_from([['l', [['i', 1]]], ['d', [[['s', 'a'], ['i', 1]]]], ['S', [['i', 1], ['i', 2]]], ['l', []], ['t', [['l', [['i', 2]]]]],
+                                ['H', 'badhash'], ['H', 'badhashrt'], ['t', [['H', 'badhash']]]])
     npool = draw(st.integers(5, 8))
     pool = []
     for j in range(npool):
@@ -184,7 +193,7 @@ def hostile_cases(draw, algo, family, tier):
 def hostile_strata(tier):
     out = []
     for a in H.ALGOS:
-        for fam in ('noarch', 'memarch', 'persist', 'noarch', 'memarch'):
+        for fam in ('noarch', 'memarch', 'persist', 'noarch', 'memarch', 'direct'):      # 'direct': the archive itself is the cache (cached=False)
             out.append(('%s/%s/%d' % (a, fam, len(out)), hostile_cases(a, fam, tier)))
     return out
 
